@@ -57,6 +57,9 @@ T = {
  "C17": ("exploration", "exchange simulator (FIX 4.4 matrices) + exhaustive interleaving exploration of requests / exchange events / report processing with step monitors and a quiescence oracle on the real order object", "§4 C17",
          "The real FIXNewOrderSingle is driven through ALL interleavings to depth 9 / 13 (visited-state pruning) and random walks of 40 steps over {new, cancel, replace price / qty up / qty down, process report} x {pending-new, ack, reject, request pending / accepted / rejected, partial and full fills, expire, suspend, resume, unsolicited cancel}; after every step status is an enum member, permitted requests build, use a fresh ClOrdID and the live OrigClOrdID, never two outstanding; at quiescence status / cum / leaves / price / qty equal the exchange's and finished orders refuse requests.",
          "the exchange model is my reading of FIX 4.4 Vol.4 App.D restricted to what the pinned scenario tests agree on; DONE_FOR_DAY / STOPPED / CALCULATED not generated"),
+ "C20": ("exploration", "contract-style monitors on every message FIXTester fabricates over reachable order states and accepted argument combinations (dictionary validity via the library schema and an independent reader, quantity arithmetic, ExecID / OrderID bookkeeping, processing by the order) + differential run of clean scripts against the simulated and a real acceptor", "§4 C20",
+         "Real orders are walked through reachable states; in every state 17 ExecTypes x 14 OrdStatus values x quantity triples x ClOrdID choices go through a schema-less FIXTester; what its own assertions accept must validate against FIX44.xml, keep CumQty + LeavesQty <= OrderQty and LeavesQty = 0 when finished, use a fresh ExecID and one OrderID per order, and be processed by the order without error; cancel rejects for real requests and all session message builders likewise; scripts (logon, traffic both ways, TestRequests, Logout) give the initiator identical frames / states / callbacks / counters against the simulated and a real acceptor.",
+         "a combination refused by the helper's own AssertionError is not judged; part 2 compares the initiator's view of clean scripts only"),
  "C02": ("exploration", "independent strict framer as oracle on encoder output and on every tapped transport write", "§4 C02",
          "Every byte string the encoder returns for generated messages (incl. non-ASCII) and every write() of a real connection during random session histories is parsed by an independent strict FIX framer (BodyLength/CheckSum recomputed on bytes).",
          "vf.ref.fixwire is the definition of well-formed; empty values tolerated"),
